@@ -14,9 +14,8 @@ Reading guide.
 * calloc / mmap / the automatic switch differ only in `mode`; none of the theorems
   restricts the mode, the threshold or the initial capacity.
 * Assumed (not modelled): what mmap/mremap/ftruncate/msync do, that `Calloc` zeroes,
-  that `sort.Slice` meets `SortContract`, and that `merge` never overwrites the unread
-  part of its right run (the model reads the right run from the state before the merge;
-  the write cursor is `|left remaining|` bytes behind the read cursor).
+  that `sort.Slice` meets `SortContract`.  (`merge` is modelled in place; that it never
+  overwrites the unread part of its right run is proved: `merge_inplace_refines`.)
 -/
 namespace RV.C11
 open RV.Buffer Gen.Buffer
@@ -309,6 +308,20 @@ example :
 
 /-! ## Sorting -/
 
+/-- The merge runs *in place*: the left run is copied to `tmp`, the right run is read
+from the very buffer that is being overwritten.  With `|G| = |left|` bytes between the
+write cursor and the right run (initially the left run's own bytes) no write ever reaches
+an unread byte of the right run: the in-place loop computes exactly what the pure loop
+computes on a snapshot, and touches nothing outside `[start, end)`. -/
+theorem merge_inplace_refines (less : Bytes → Bytes → Bool) (fuel : Nat) (pre G right post left : Bytes)
+    (hG : G.length = left.length) (hb : pre.length + G.length + right.length < 2 ^ 62) :
+    mergeInPlace less (pre.length + G.length + right.length) fuel (pre ++ G ++ right ++ post) pre.length left
+        (pre.length + G.length) =
+      match mergeLoop less (pre.length + G.length + right.length) fuel pre.length left right with
+      | .ok out => .ok (pre ++ out ++ post)
+      | .error f => .error f :=
+  mergeInPlace_eq less fuel pre G right post left hG hb
+
 /-- **merge_spec.**  `sortHelper.merge` on two adjacent runs of length-prefixed slices:
 the region ends up holding a permutation of the slices of both runs; if both runs are
 ordered and `less` is asymmetric and negatively transitive (i.e. a strict weak order),
@@ -316,7 +329,7 @@ the result is ordered.  Ties go to the *right* run first (`copyRight`), which is
 asymmetry is needed in the `less a c` case and negative transitivity in both. -/
 theorem merge_spec (less : Bytes → Bytes → Bool) (pre post : Bytes) (L R : List Bytes)
     (hb : pre.length + (encAll L).length + (encAll R).length < 2 ^ 62) :
-    ∃ M, merge less (pre ++ encAll L ++ encAll R ++ post) (encAll L) (encAll R) pre.length
+    ∃ M, merge less (pre ++ encAll L ++ encAll R ++ post) pre.length (pre.length + (encAll L).length)
         (pre.length + (encAll L).length + (encAll R).length) = .ok (pre ++ encAll M ++ post) ∧
       M.Perm (L ++ R) ∧
       (StrictWeak less → Sorted less L → Sorted less R → Sorted less M) :=
